@@ -434,13 +434,19 @@ func (cfg *Config) replaceElems(repl *syntax.Replace, elems []string) ([]string,
 	for i, elem := range elems {
 		var locs [][]int
 		switch anchor {
-		case '#':
-			if rest := removePattern(elem, orig, false, false); orig == "" || len(rest) < len(elem) {
-				locs = [][]int{{0, len(elem) - len(rest)}}
+		case '#', '%':
+			// The longest match at the start or at the end, possibly empty.
+			expr, err := pattern.Regexp(orig, 0)
+			if err != nil {
+				break
 			}
-		case '%':
-			if rest := removePattern(elem, orig, true, false); orig == "" || len(rest) < len(elem) {
-				locs = [][]int{{len(rest), len(elem)}}
+			if anchor == '#' {
+				expr = "^(?:" + expr + ")"
+			} else {
+				expr = "(?:" + expr + ")$"
+			}
+			if loc := regexp.MustCompile(expr).FindStringIndex(elem); loc != nil {
+				locs = [][]int{loc}
 			}
 		default:
 			locs = findAllIndex(orig, elem, n)
